@@ -102,3 +102,16 @@ add("C10", "E5 space", "translation_validation",
     "For every module of the corpus (stdlib in quick; stdlib + site-packages, ~9.5k files, in thorough) and of a generated grammar (<=4 top-level items x decorator stacks x nesting x both typechecker spellings) the real JaxtypingTransformer / _JaxtypingLoader.source_to_code / IPython magic is run: the hooked tree compiles; stripping exactly the three permitted additions reproduces the untouched ast.dump(include_attributes=True); every added decorator evaluates to the registered jaxtyped(typechecker=...) expression; future flags, docstring, function co_firstlineno and leaf code objects agree bit for bit; executed generated modules produce identical logs, results and traceback line numbers plain vs hooked (identity-spy typechecker).",
     "Trusted: CPython compile() determinism. Don't-care: zero imports in modules without def/class; import position anywhere between the docstring/__future__ block and the first def/class; source locations of the added nodes themselves; first-line shift of classes that already had decorators. Quick caps the length-3/4 generated spaces (stated in coverage.caps).",
     "DESIGN.md §6 C10")
+
+ENGINES[1]["serves_properties"] += ["C20"]
+ENGINES[2]["serves_properties"] += ["C17"]
+add("C20", "E5 space", "exploration",
+    "exhaustive annotation x serialisation-route product with a differential acceptance-vector oracle, run in fresh interpreters",
+    "Every annotation of the alphabet (16 categories incl. two importable user categories x array types {ndarray, duck, Any, Union, nested one and two levels with narrowing} x 8 dim strings) goes through pickle protocols 0-5, cloudpickle, copy and deepcopy, same-process and loaded in a fresh interpreter; the 540-probe isinstance vector (2 array classes x 9 dtypes x 10 shapes x 3 contexts) of the reconstructed annotation must equal the original's vector computed before serialising; the original is re-measured after dumps and after loads, and bystander canaries after every case.",
+    "No hand-written expectations. Trusts CPython pickle/copy, cloudpickle 3.1.2 and determinism of fresh interpreters (asserted by computing fingerprints twice). Only the exception type of a probe is compared, unions by 'any member accepts'.",
+    "DESIGN.md §6 C20")
+add("C17", "E2 callspace", "exploration",
+    "bounded-exhaustive program x input x transformation products, traced-vs-eager differential",
+    "Every decorated function of the grammar (k<=3 jax.Array parameters from the C02 dim strings, return annotations incl. symbolic, PyTree[...,'T'] / '?' parameters; typeguard and beartype) is traced under every catalogue transformation (eval_shape, make_jaxpr, jit, vmap with every valid in_axes, grad, jit∘vmap, vmap∘jit, grad∘jit, vmap∘vmap) and must agree with its own eager call on the per-example shapes and dtypes in verdict, exception class and body-run count; three eager fillings (zeros, arange, NaN) must agree; no Concretization / TracerBoolConversion / TracerArrayConversion error anywhere in the exception chain.",
+    "Rank <=3, sizes <=3, float32/int32, CPU, tracing only (nothing compiled). Trusts JAX's tracing semantics; the harness's per-example-shape computation is cross-checked against what the body saw in every trace.",
+    "DESIGN.md §6 C17")
